@@ -105,10 +105,16 @@ func openSessionPrep(trans string, v int, prep func(*testClient), opts ...client
 	return s, nil
 }
 func (s *session) close() {
-	func() {
+	done := make(chan struct{})
+	go func() {
+		defer close(done)
 		defer func() { recover() }()
 		s.tc.cli.Close(nil)
 	}()
+	select { // clean-up must not hang the suite; promptness of Close is C14's own oracle
+	case <-done:
+	case <-time.After(3 * time.Second):
+	}
 	if s.tcp != nil {
 		s.tcp.shutdown()
 	}
